@@ -31,6 +31,7 @@ impl Method for EMA {
 		&&& post.value == *out
 	}
 //@extract src/methods/ema.rs impl[Method for EMA]::new
+	ensures (r is Ok) == (length != 0),
 //@hint before match length
 	proof {
 		if length > 0 {
@@ -202,6 +203,7 @@ impl Method for RMA {
 		&&& post.prev_value == *out
 	}
 //@extract src/methods/rma.rs impl[Method for RMA]::new
+	ensures (r is Ok) == (length != 0),
 //@hint before match length
 	proof {
 		if length > 0 {
